@@ -281,8 +281,8 @@ package mq
 
 
 //@ func (*Connect).WriteTo
-//@   inline
 //@   requires w != nil
+//@   assigns $writes, $alloc
 
 //@ func Dump
 //@   inline
@@ -753,12 +753,15 @@ package mq
 // ---------------------------------------------------------------- WellFormed (C17)
 
 //@ func (*Publish).WellFormed
+//@   assigns $alloc
 //@   ensures (result != nil) == ((len(p.topicName) == 0 && p.topicAlias == 0) || (((p.fixed & 6) == 2 || (p.fixed & 6) == 4) && p.packetID == 0) || (p.fixed & 6) == 6)    #C17
 
 //@ func (*TopicFilter).WellFormed
+//@   assigns $alloc
 //@   ensures (result != nil) == (len(c.filter) == 0 || (c.options & 3) == 3)                                       #C17
 
 //@ func (*Subscribe).WellFormed
+//@   assigns $alloc
 //@   ensures (result != nil) == (len(p.filters) == 0 || (p.subscriptionID != nil && uint(*p.subscriptionID) > 268435455) || (exists j in 0..len(p.filters): len(p.filters[j].filter) == 0 || (p.filters[j].options & 3) == 3))   #C17
 //@   loop 0:
 //@     invariant rangeindex < len(p.filters)
@@ -766,9 +769,113 @@ package mq
 //@     decreases len(p.filters) - rangeindex
 
 //@ func (*Publish).String
-//@   inline
+//@   assigns $alloc
 //@   ensures (self.WellFormed() != nil) == sameFormat(result, specMalformedFmt)                                    #C17
 
 //@ func (*Subscribe).String
-//@   inline
+//@   assigns $alloc
 //@   ensures (self.WellFormed() != nil) == sameFormat(result, specMalformedFmt)                                    #C17
+
+// ---------------------------------------------------------------- read-only operations (C11 C13 C10)
+// WriteTo and String modify nothing that existed before the call (heap frame obligations).
+
+//@ func (*ConnAck).WriteTo
+//@   requires w != nil
+//@   assigns $writes, $alloc
+
+//@ func (*Publish).WriteTo
+//@   requires w != nil
+//@   assigns $writes, $alloc
+
+//@ func (*PubAck).WriteTo
+//@   requires w != nil
+//@   assigns $writes, $alloc
+
+//@ func (*PubRec).WriteTo
+//@   requires w != nil
+//@   assigns $writes, $alloc
+
+//@ func (*PubRel).WriteTo
+//@   requires w != nil
+//@   assigns $writes, $alloc
+
+//@ func (*PubComp).WriteTo
+//@   requires w != nil
+//@   assigns $writes, $alloc
+
+//@ func (*Subscribe).WriteTo
+//@   requires w != nil
+//@   assigns $writes, $alloc
+
+//@ func (*SubAck).WriteTo
+//@   requires w != nil
+//@   assigns $writes, $alloc
+
+//@ func (*Unsubscribe).WriteTo
+//@   requires w != nil
+//@   assigns $writes, $alloc
+
+//@ func (*UnsubAck).WriteTo
+//@   requires w != nil
+//@   assigns $writes, $alloc
+
+//@ func (*PingReq).WriteTo
+//@   requires w != nil
+//@   assigns $writes, $alloc
+
+//@ func (*PingResp).WriteTo
+//@   requires w != nil
+//@   assigns $writes, $alloc
+
+//@ func (*Disconnect).WriteTo
+//@   requires w != nil
+//@   assigns $writes, $alloc
+
+//@ func (*Auth).WriteTo
+//@   requires w != nil
+//@   assigns $writes, $alloc
+
+//@ func (*ConnAck).String
+//@   assigns $alloc
+
+//@ func (*PubAck).String
+//@   assigns $alloc
+
+//@ func (*PubRec).String
+//@   assigns $alloc
+
+//@ func (*PubRel).String
+//@   assigns $alloc
+
+//@ func (*PubComp).String
+//@   assigns $alloc
+
+//@ func (*SubAck).String
+//@   assigns $alloc
+
+//@ func (*Unsubscribe).String
+//@   assigns $alloc
+
+//@ func (*UnsubAck).String
+//@   assigns $alloc
+
+//@ func (*PingReq).String
+//@   assigns $alloc
+
+//@ func (*PingResp).String
+//@   assigns $alloc
+
+//@ func (*Disconnect).String
+//@   assigns $alloc
+
+//@ func (*Auth).String
+//@   assigns $alloc
+
+//@ func (*Connect).String
+//@   assigns $alloc
+
+//@ func (*Undefined).String
+//@   assigns $alloc
+
+//@ func (*Undefined).WriteTo
+//@   assigns $alloc
